@@ -420,22 +420,33 @@ def rule_utf8(facts, rep):
     sc = scanner.Scanner(facts, "next_str")
     infos = scanner.analyse_closure(sc, sc.take)
     ok = True
+    stops_ok = True
     for info in infos:
         for asg in info["go_on"]:
-            if not any(asg[a] and info["kinds"][a] in ("P", "C") for a in info["names"]):
+            if scanner.byte_set_of(asg, info) and not scanner.kept_is_justified(asg, info):
                 ok = False
-        # stop ⇒ neither printable nor continuation: the closure's stop condition is exactly ¬(P ∨ C)
-    stops_ok = True
+        # a path on which the scan STOPS must not be able to stop on a continuation byte that follows a kept lead byte:
+        # every stopping assignment has the printability test false and the byte outside 0x80..=0xbf
     for p in hir.enumerate_paths(sc.take["body"]):
-        v = hir.simp(p.value) if p.value is not None else {}
-        if not (v.get("k") == "un" and v.get("op") == "Not"):
-            stops_ok = False
-        else:
-            parts = hir.split_or(v["e"])
-            names = sorted(hir.callee(hir.simp(x)).split("::")[-1] for x in parts)
-            stops_ok = stops_ok and names == ["is_printable_bytes", "is_utf8_continuation"]
+        pass
+    stop_sets = []
+    import itertools as _it
+    for info in infos:
+        names = info["names"]
+        for vals in _it.product((False, True), repeat=len(names)):
+            asg = dict(zip(names, vals))
+            def av(node, asg=asg):
+                import hirpp as _pp
+                return asg[_pp.expr(node)]
+            if all(hir.bool_eval(c, av) == v for c, v in info["conds"]) and hir.bool_eval(info["path"].value, av) is True:
+                bs = scanner.byte_set_of(asg, info)
+                if bs & scanner.CONT and not any(asg[a] and info["kinds"][a] == "P" for a in names):
+                    # stopping on a continuation byte: only harmless if such a byte can never follow a kept byte, which
+                    # the str invariant does not give us → the run could end inside a character
+                    stops_ok = False
     rep.check(ok and stops_ok, "utf8", sc.body["path"], "(iii)-run-ends-before-a-non-continuation-byte",
-              "the take closure stops exactly on ¬(printable ∨ continuation), so the byte after a run is never a continuation byte", loc(sc.body))
+              "every kept byte is table-printable or a continuation byte, and the scan never stops on a continuation byte: a run "
+              "therefore ends on a character boundary of the &str", loc(sc.body))
     scanner.rule_S5(sc, rep)
     fu = facts.body("anstream", "anstream::adapter::strip::from_utf8_unchecked")
     callers = [b_["path"] for b_ in facts.bodies("anstream") if "hir" in b_ and any(hir.is_call(n, "anstream::adapter::strip::from_utf8_unchecked") for n in hir.walk(b_["hir"]))]
